@@ -78,10 +78,14 @@ def check_tree(doc, warn, post, sphinx_stage=False):
             if not reported and post:
                 v.append(("v-dangling-refid", n.tagname))
     if post:
+        # narrow classification of one known cause: a docutils directive reported an error and threw its parsed body away
+        # (kept only as a literal block), after a footnote reference inside it had been registered with the document
+        discarded = (any("[^" in lb.astext() for sm in doc.findall(nodes.system_message) for lb in sm.findall(nodes.literal_block))
+                     or (sphinx_stage and ("Figure caption must be a paragraph" in warn or "Error parsing content block" in warn)))  # Sphinx drops the message nodes
         for f in doc.findall(nodes.footnote):
             for b in f.get("backrefs", []):
                 if b not in allids:
-                    v.append(("v-dangling-backref", "footnote"))
+                    v.append(("v-dangling-backref", "footnote-reference-in-discarded-directive-content" if discarded else "footnote"))
     return v
 
 
@@ -93,6 +97,9 @@ FR = [
     "[](#fig1)\n", "```{table} T\n:name: tbl\n\n|a|\n|-|\n|1|\n```\n", "***\n\n***\n", "<div class=\"admonition\" name=\"n1\">\n<p>hn</p>\n</div>\n", "- [ ] task\n", "+++\n",
     "[^a]: A\n\n(a)=\npara named a\n", "[^a]: A\n\n```{note}\n:name: a\nn\n```\n", "![see [^a]](img.png)\n", "![a [b]{#x}](i.png)\n\n[l](#x)\n", "![alt (t)= {#i}](i.png){#img}\n",
     "```{line-block}\na\n  b\nc\n```\n", "```{line-block}\na\n  b\n    c\n  d\ne\n```\n", "<img src=\"a.png\" name=\"foo\">\n<img alt=\"x\">\n\n[link](#foo)\n",
+"```{figure} a.png\n- item\n\n  (tf)=\n  para\n```\n\n[](#tf)\n", "```{figure} a.png\n> ## Hq in figure\n```\n\n[](#hq-in-figure)\n", "```{figure} a.png\n- item x[^a]\n```\n",
+    "```{list-table}\n(tl)=\npara x[^a]\n```\n\n[](#tl)\n",
+        "### H3 skipped\n", "#### H4 skipped\n\ntext\n", "{#h}\npara with the id of a heading\n", "{#h-1}\n- list with the id of the second H\n", "![a](b){#h3-skipped}\n",
     "(t2)=\n## Titled target\n", "[](#t2) and [](#t2) and <project:#t2>\n", "[](#fig1) [](#fig1)\n", "[](#h) [](#h)\n", "x[^a] y[^a]\n",
 ]
 
